@@ -175,6 +175,8 @@ def run_check(pid: str, tier: str, explain: Optional[str] = None) -> int:
         spec = load_prop(pid)
         ctx = Ctx(pid, tier, repo)
         spec.check(ctx)
+        from .props import _hooks
+        _hooks.run(ctx, pid)
         imported = []
         if tier == 'thorough':
             # thorough tier: additionally decide the rule sets of the properties that share this property's mechanisms
@@ -182,6 +184,7 @@ def run_check(pid: str, tier: str, explain: Optional[str] = None) -> int:
             for other in RELATED.get(pid, []):
                 sub = Ctx(other, tier, repo)
                 load_prop(other).check(sub)
+                _hooks.run(sub, other)
                 for o in sub.obligations:
                     o.origin = other
                     o.rule = f'{other}/{o.rule}'
